@@ -63,6 +63,19 @@ func VerifHasKey(ctx sdk.Context, k *Keeper, v types.Validator) bool {
 	_, found := k.GetValidatorByConsAddr(ctx, ca)
 	return found
 }
+
+// VerifSameRecord: the plan names a validator that is already stored with exactly this operator and this key
+func VerifSameRecord(ctx sdk.Context, k *Keeper, v types.Validator) bool {
+	a, err := k.validatorAddressCodec.StringToBytes(v.OperatorAddress)
+	if err != nil {
+		return false
+	}
+	cur, found := k.GetValidator(ctx, a)
+	if !found {
+		return false
+	}
+	return pkEq(tmKey(cur), tmKey(v))
+}
 func VerifCount(ctx sdk.Context, k *Keeper) int { return len(k.allRecords(ctx)) }
 func VerifValidOperator(k *Keeper, op string) bool {
 	_, err := k.validatorAddressCodec.StringToBytes(op)
